@@ -63,6 +63,39 @@ def generate(rng, tier):
         p["broad"] = True
         out.append(p)
     out += _gen_failed_exit_then_rerun(rng, 40 * n)
+    out += _gen_caught_failed_extend(rng, 40 * n)
+    return out
+
+
+def _gen_caught_failed_extend(rng, n):
+    """A doer extends its scheduler with new doers one of which raises in its enter context, catches the exception
+    and carries on (outside the Coq model, whose scripts do not catch: oracle only): only the new doers are closed,
+    every other doer runs to its own completion and the flags are what they returned."""
+    out = []
+    Y = lambda: {"es": [], "out": ["y", None]}
+    R = lambda r="true": {"es": [], "out": ["r", r]}
+    for _ in range(n):
+        k = rng.randint(1, 3)
+        tock = rng.choice([0.25, 0.5, 1.0])
+        defs, ids = {}, []
+        for i in range(1, k + 1):
+            kind = rng.choice(["func", "bound", "doer", "doergen"])
+            # (a plain-recur Doer finishes by returning True from recur: its flag is always True)
+            defs[str(i)] = {"kind": kind, "script": [Y() for _ in range(rng.randint(3, 6))]
+                            + [R("true" if kind == "doer" else rng.choice(["true", "true", "none", "false"]))]}
+            ids.append(i)
+        m, ok, bad = k + 1, k + 2, k + 3
+        defs[str(ok)] = {"kind": rng.choice(["func", "doer", "doergen"]), "script": [Y(), Y(), R()]}
+        defs[str(bad)] = {"kind": rng.choice(["func", "bound"]), "script": [{"es": [], "out": ["x"]}]}
+        new = [ok, bad] if rng.random() < 0.7 else [bad]
+        at = rng.randint(0, 2)
+        ms = [Y() for _ in range(at)] + [{"es": [["ext", 0, new, "catch"]], "out": ["y", None]}] + [Y(), R()]
+        defs[str(m)] = {"kind": rng.choice(["func", "bound"]), "script": ms}
+        doers = ids + [m]
+        rng.shuffle(doers)
+        p = {"tock": tock, "limit": None, "tyme": 0.0, "doers": doers, "mode": rng.choice(["do", "do", "ado"]), "defs": defs,
+             "catch_ext": True, "enter_effects": at == 0}
+        out.append(p)
     return out
 
 
@@ -209,7 +242,36 @@ def _oracle_broad(case, obs):
     return None
 
 
+def _oracle_caught(case, obs):
+    if obs["raised"] != "none":
+        return f"do() raised: {obs['raised']}"
+    tr = obs["trace"]
+    dones = dict((i, d) for i, d in obs["dones"])
+    new = {x for r in obs["efflog"] for x in r["ids"]}
+    ret = _returned(case, obs)
+    for i in case["doers"]:
+        ks = [k for k, j, _ in tr if j == i]
+        if "Cease" in ks or "Abort" in ks:
+            return f"doer {i} was cut short ({ks}) by another doer's failed extend(), which the caller handled"
+        if ks.count("Enter") != 1 or ks[-2:] != ["Clean", "Exit"]:
+            return f"doer {i} did not run one lifecycle to its own completion: {ks}"
+        want = {"true": True, "false": False}.get(ret.get(i), None)
+        if (dones.get(i) is True) != (want is True):
+            return f"doer {i} returned {ret.get(i)} but its done is {dones.get(i)}"
+    if dones.get(0) is not True:
+        return f"every doer completed by itself but doist.done = {dones.get(0)}"
+    exits = [sc.fl(h) for k, j, h in tr if k == "Exit" and j in case["doers"]]
+    if not exits:
+        return None
+    last = max(exits)
+    if sc.fl(obs["tyme"]) != last + case["tock"]:
+        return f"run returned at tyme {sc.fl(obs['tyme'])}, its last doer completed in the cycle at {last} (tock {case['tock']})"
+    return None
+
+
 def oracle(case, obs):
+    if case.get("catch_ext"):
+        return _oracle_caught(case, obs)
     if case.get("broad"):
         return _oracle_broad(case, obs)
     why = sc.clock_oracle(obs)
